@@ -15,7 +15,8 @@ AllValid == \A U \in Universes : \A t \in U : ValidThing(t)
 RefSatisfies == \A U \in Universes :
     LET S == SetToSeq(U)
         n == Len(S)
-        O == [i \in 1..n |-> [j \in 1..n |-> RefObs("key", S[i], S[j])]]
+        K == [i \in 1..n |-> RefKey(S[i])]
+        O == [i \in 1..n |-> [j \in 1..n |-> RefObsK("key", S[i], S[j], K[i], K[j])]]
     IN  /\ \A i, j \in 1..n : PairBad(O[i][j]) = {} /\ MirrorBad(O[i][j], O[j][i]) = {}
         /\ \A i \in 1..n : SelfBad(O[i][i]) = {}
         /\ \A i, j, k \in 1..n : TripleBad(O[i][j], O[j][k], O[i][k]) = {}
@@ -27,6 +28,33 @@ SpellingHashBreaks == Cardinality({U \in Universes :
 CoarseOrderBreaks == \E U \in Universes : \E x, y \in U :
     x.sub # y.sub /\ "Neq_ordered" \in PairBad([RefObs("key", x, y) EXCEPT !.lt = FALSE, !.gt = FALSE])
 
+\* each clause fires on a hand-made observation that breaks exactly it
+ClauseUnitTests ==
+    LET o(eq, lt, gt) == [eq |-> eq, ne |-> ~eq, lt |-> lt, le |-> lt \/ eq, gt |-> gt, ge |-> gt \/ eq, heq |-> eq, bad |-> FALSE]
+        EQ == o(TRUE, FALSE, FALSE)   LT == o(FALSE, TRUE, FALSE)   GT == o(FALSE, FALSE, TRUE)
+        M2 == <<<<EQ, LT>>, <<GT, EQ>>>>          \* two objects, 1 < 2
+    IN  /\ PairBad(EQ) = {} /\ PairBad(LT) = {} /\ PairBad(GT) = {}
+        /\ PairBad([EQ EXCEPT !.ne = TRUE]) = {"Eq_ne"}
+        /\ PairBad([EQ EXCEPT !.heq = FALSE]) = {"Eq_hash"}
+        /\ PairBad([EQ EXCEPT !.lt = TRUE, !.le = TRUE]) = {"Eq_not_lt"}
+        /\ PairBad([EQ EXCEPT !.gt = TRUE, !.ge = TRUE]) = {"Eq_not_gt"}
+        /\ PairBad(o(FALSE, FALSE, FALSE)) = {"Neq_ordered"}
+        /\ PairBad(o(FALSE, TRUE, TRUE)) = {"Neq_ordered"}
+        /\ PairBad([LT EXCEPT !.le = FALSE]) = {"Le_def"}
+        /\ PairBad([GT EXCEPT !.ge = FALSE]) = {"Ge_def"}
+        /\ PairBad([EQ EXCEPT !.bad = TRUE]) = {"NoRaise"}
+        /\ MirrorBad(LT, GT) = {} /\ MirrorBad(LT, LT) = {"Converse_lt", "Converse_le"}
+        /\ MirrorBad(EQ, [LT EXCEPT !.lt = FALSE, !.le = TRUE, !.ge = TRUE]) = {"Sym_eq", "Sym_ne"}
+        /\ SelfBad(EQ) = {} /\ SelfBad(LT) = {"Reflexive"}
+        /\ TripleBad(LT, LT, LT) = {} /\ TripleBad(LT, LT, GT) = {"Trans_lt"}
+        /\ TripleBad(EQ, EQ, LT) = {"Trans_eq"}
+        /\ TripleBad(EQ, LT, GT) = {"Cong_lt_left"} /\ TripleBad(LT, EQ, EQ) = {"Cong_lt_right"}
+        /\ SortBad(M2, 2, <<1, 2>>) = {} /\ SortBad(M2, 2, <<2, 1>>) = {"Sort_ordered"} /\ SortBad(M2, 2, <<1, 1>>) = {"Sort_perm"}
+        /\ SetBad(M2, 2, 2) = {} /\ SetBad(M2, 2, 1) = {"Set_size"}
+        /\ FindBad(M2, 2, <<<<TRUE, FALSE>>, <<FALSE, TRUE>>>>) = {}
+        /\ FindBad(M2, 2, <<<<TRUE, TRUE>>, <<FALSE, TRUE>>>>) = {"Dict_finds"}
+
+ASSUME ClauseUnitTests
 ASSUME AllValid
 ASSUME RefSatisfies
 ASSUME SpellingHashBreaks
